@@ -545,6 +545,13 @@ they are listed in §8 with the property whose check found them.
   octets received is never found and such a rewind is ignored; which (section, offset) names which octet is
   the code's own convention (section numbers count headers seen, starting at 1 for the first), C10 does not
   say, and the model and the scenarios follow the code there.
+  A fourth defect, C07 this time, from asking what the routing model's `withheld` leaves undone: a withheld
+  transfer never reached `Session::on_incoming_transfer`, so the session's next-incoming-id, remote-outgoing-
+  window and the count towards its next flow did not move until the commit replayed the frame (never after a
+  rollback), and the flows of such a session stated a next-incoming-id that left the withheld transfers out
+  (fixed, f811caf: accounting and delivery are two functions of the session now; the routing model carries
+  the count, `every_transfer_counted`, and the `txn` runs — registered for C07 as well — judge every flow a
+  listener with a small session window sends; corpus C18/006).
   Not modelled: what the resuming attach exchanges (the unsettled maps), and in `TxnRoute` whether the named
   transaction is live (that is `Amqp.Txn`, at the level of whole posts). Routing and reassembly are composed
   (`post_work_in_order`, `committed_post_is_the_post_as_written`: what the commit replays to a link is the
